@@ -85,3 +85,18 @@ Definition every_output_finite (EP : engine PR) (ER : engine R) : Prop :=
     exists out,
       network_step ER U P g opts st = Ok out /\
       network_step EP U (liftP P) g opts (liftS st) = Ok (lift_out out).
+
+(* (c) the usual reading: a state whose densities, speeds and queues are all non-negative is left as it is by the
+   positive_init_* clamps, so admissibility of the given state suffices, for every option set *)
+Definition nonnegative_state (st : state R) : Prop :=
+  (forall m, Forall (fun x => 0 <= x) (s_rho st m)) /\ (forall m, Forall (fun x => 0 <= x) (s_v st m)) /\
+  (forall o, 0 <= s_w st o).
+Definition every_output_finite_from_nonnegative (EP : engine PR) (ER : engine R) : Prop :=
+  forall U P g opts st,
+    wf_graph g -> validb U g = true ->
+    (forall e, In e (g_edges g) -> wf_link U st (e_link e)) ->
+    (forall e, In e (g_edges g) -> lp P (e_link e) Pturn <> 0) ->
+    nonnegative_state st -> admissible_inputs U P g st ->
+    exists out,
+      network_step ER U P g opts st = Ok out /\
+      network_step EP U (liftP P) g opts (liftS st) = Ok (lift_out out).
